@@ -88,7 +88,7 @@ HIST_TOL = 1e-12       # the reference is the identical call: anything but round
 
 # ---------------------------------------------------------------- fresh-interpreter reference (cached on disk for the duration of the run)
 def _cache_dir():
-    d = os.path.join(tempfile.gettempdir(), 'vp_c06_%d' % os.getppid())
+    d = os.path.join(os.environ.get('VP_SCRATCH') or os.path.join(tempfile.gettempdir(), 'vp_c06_%d' % os.getppid()), 'c06ref')
     os.makedirs(d, exist_ok=True)
     return d
 
